@@ -1,7 +1,11 @@
 pub mod vshim {
     use vstd::prelude::*;
+    /// provenance of a value: it is the result of a call of the random source. Uninterpreted, and `random` is the only
+    /// function that establishes it, so a contract can demand "this nonce was drawn from the RNG for this very use" and a
+    /// value derived from other state (a counter, a bit pool filled earlier, a constant) does not satisfy it.
+    pub uninterp spec fn drawn<T>(v: T) -> bool;
     #[verifier::external_body]
-    pub fn random<T>() -> T { unimplemented!() }
+    pub fn random<T>() -> (r: T) ensures drawn(r) { unimplemented!() }
 }
 pub mod vcell {
     // Stand-in for std::cell::RefCell (transformation T7). The contents are HAVOCKED at every borrow:
